@@ -851,7 +851,7 @@ theorem C02_kv_kinds_filter_complete (tasks : List Task) (hwf : ∀ t ∈ tasks,
     (ks : List Int) (hk : f.kinds = some ks) (hne : ks ≠ []) (hids : f.ids = none) (hauth : f.authors = none) (htags : f.tags = [])
     (kds : List Bytes) (henc : ks.map be32 = kds.map some) (hdesc : ks.Pairwise (fun a b => b < a))
     (sB uB : Option Bytes) (hsB : encOpt f.since = some sB) (huB : encOpt f.until_ = some uB)
-    (p : Plan) (hp : planFilter f dl = some p)
+    (p : Plan) (hp : planFilter f dl ml = some p)
     (e : Event) (hst : getEvent (applyTasks init tasks) e.id = some e) (hm : matchesSpec true f e = true)
     (hlim : ∀ n cands, p.limit = some n → planCandidates (applyTasks init tasks) p = some cands →
       (planHits (applyTasks init tasks) p.filter cands).length ≤ n) :
@@ -912,7 +912,7 @@ example :
     let e2 : Event := { id := List.replicate 31 0 ++ [2], pubkey := List.replicate 32 170, createdAt := 1700000100, kind := 1, tags := [] }
     let e3 : Event := { id := List.replicate 31 0 ++ [3], pubkey := List.replicate 32 187, createdAt := 1700000050, kind := 7, tags := [] }
     let s := applyTasks init [.add e1, .add e2, .add e3]
-    (planFilter { kinds := some [7, 1], since := some 1700000050 } none).map (fun p => executePlan s p)
+    (planFilter { kinds := some [7, 1], since := some 1700000050 } none 20).map (fun p => executePlan s p)
       = some [e3.id, e2.id] := by decide +kernel
 
 /-! ## Part 6: the authors and author+kind indexes -/
@@ -1132,7 +1132,7 @@ theorem C02_kv_authors_filter_complete (tasks : List Task) (hwf : ∀ t ∈ task
     (hids : f.ids = none) (hkinds : f.kinds = none) (htags : f.tags = [])
     (hdesc : as.Pairwise (fun a b => b < a))
     (sB uB : Option Bytes) (hsB : encOpt f.since = some sB) (huB : encOpt f.until_ = some uB)
-    (p : Plan) (hp : planFilter f dl = some p)
+    (p : Plan) (hp : planFilter f dl ml = some p)
     (e : Event) (hst : getEvent (applyTasks init tasks) e.id = some e) (hm : matchesSpec true f e = true)
     (hlim : ∀ n cands, p.limit = some n → planCandidates (applyTasks init tasks) p = some cands →
       (planHits (applyTasks init tasks) p.filter cands).length ≤ n) :
